@@ -63,7 +63,15 @@ type frame struct {
 	Raw     string
 }
 
-func alias(id string) string { return "o" + id }
+// sessionNonce: every session of a process has aliases of its own (s<k>o<id>), so that a resolver
+// call logged by the tail of an earlier session can be told from one of the current session (the
+// universal resolver logs into whatever session is current).
+var (
+	sessionNonce string
+	nonceSeq     atomic.Int64
+)
+
+func alias(id string) string { return sessionNonce + "o" + id }
 
 func queryFor(st Step) string {
 	a := alias(st.ID)
@@ -112,6 +120,7 @@ type session struct {
 }
 
 func check(c Case) *vfrun.Failure {
+	sessionNonce = fmt.Sprintf("s%d", nonceSeq.Add(1))
 	ss, err := kit.Servers("core")
 	if err != nil {
 		return vfrun.Failf("harness.no-project", "%v", err)
@@ -243,6 +252,7 @@ func check(c Case) *vfrun.Failure {
 	}
 	// model
 	initSent, initAcceptable := false, false
+	acceptableButForTimeout := false // the init message would be accepted if it arrived within the init timeout
 	started := map[string]Step{}
 	var startOrder []string
 	stopped := map[string]bool{}
@@ -261,6 +271,7 @@ func check(c Case) *vfrun.Failure {
 			if !initSent {
 				pl := strings.TrimSpace(st.Payload)
 				initAcceptable = c.InitFunc != "reject" && (pl == "" || pl == "null" || strings.HasPrefix(pl, "{"))
+				acceptableButForTimeout = initAcceptable
 				if c.InitTimeoutUS > 0 && c.InitTimeoutUS < 10000 {
 					initAcceptable = false // the server gave up waiting long before
 				}
@@ -437,6 +448,13 @@ waitLoop:
 			return vfrun.Failf("ws.unknown-frame-type", "%s: %q", desc, f.Raw)
 		}
 	}
+	if acked && initSent && !initAcceptable && acceptableButForTimeout && c.InitTimeoutUS > 0 && c.InitTimeoutUS < 10000 {
+		// the init message was expected to come after the server's short init timeout, but the
+		// server answered it: its timer had not fired (a loaded machine starts it late). The ack is
+		// the server's word that the handshake was accepted.
+		initAcceptable = true
+		vfrun.Label("short-init-timeout-had-not-fired")
+	}
 	if acked && !(initSent && initAcceptable) {
 		return vfrun.Failf("ws.ack-without-accepted-init", "%s: connection_ack although init was not acceptable; frames %v", desc, rawFrames(fr))
 	}
@@ -449,16 +467,14 @@ waitLoop:
 		}
 	}
 	for _, ev := range events {
+		if ev.Kind == "R" && !strings.HasPrefix(strings.TrimPrefix(ev.Key, refusedMark), sessionNonce+"o") {
+			vfrun.Label("ignored:resolver-event-of-an-earlier-session")
+			continue
+		}
 		if ev.Kind == "R" && strings.Contains(ev.Key, refusedMark) {
 			return vfrun.Failf("ws.refused-operation-executed", "%s: resolver %s ran although an extension refused the operation", desc, ev.Key)
 		}
 		if ev.Kind == "R" {
-			if id := strings.TrimPrefix(strings.TrimPrefix(ev.Key, refusedMark), "o"); started[id].Kind == "" {
-				// a resolver of an operation this session never started: the tail of an earlier
-				// session of this process (the universal resolver logs into the current session)
-				vfrun.Label("ignored:resolver-event-of-an-earlier-session")
-				continue
-			}
 			if !initSent || !initAcceptable || ((c.InitFunc == "accept" || c.InitFunc == "detached") && (initSeq < 0 || ev.Seq < initSeq)) {
 				return vfrun.Failf("ws.executed-before-init-accepted", "%s: resolver %s ran although the handshake was not accepted (initSeq %d, event seq %d)", desc, ev.Key, initSeq, ev.Seq)
 			}
